@@ -204,10 +204,22 @@ def build(case):
             except ValueError:
                 return head + new, eof, "raise", None, f"size line of chunk removed; data {line[:12]!r} is read as a size line"
         hexlen = len(body[s:e].split(b";")[0].rstrip(b"\r\n"))
-        p = s + mut.get("digit", 0) % hexlen
-        rep = {"g": b"g", "Z": b"Z", "!": b"!"}[mut["how"]]
-        new = body[:p] + rep + body[p + 1 :]
-        return head + new, eof, "raise", None, f"chunk-size line {new[s:e]!r} is not hexadecimal"
+        if mut["how"] == "cr":
+            # the CR that ends the size line becomes a letter: "5\r\n" -> "5X\n" (valid digits followed by junk)
+            if b";" in body[s:e]:
+                raise core.InvalidCase
+            p = e - 2
+            new = body[:p] + b"X" + body[p + 1 :]
+        else:
+            p = s + mut.get("digit", 0) % hexlen
+            rep = {"g": b"g", "Z": b"Z", "!": b"!"}[mut["how"]]
+            new = body[:p] + rep + body[p + 1 :]
+        line = new[s:].split(b"\n", 1)[0]
+        try:
+            int(line.split(b";")[0], 16)
+            return head + new, eof, "either", None, f"size line {line!r} still reads as a number"
+        except ValueError:
+            return head + new, eof, "raise", None, f"chunk-size line {line!r} is not hexadecimal"
     if m == "clconflict":
         if framing != "cl":
             raise core.InvalidCase
@@ -384,6 +396,8 @@ def mutations(base, dense: bool, salt: int):
         for i in idxs:
             for how in ("g", "Z", "!"):
                 yield {"m": "chunksize", "idx": i, "how": how, "digit": (salt + i) % 3}
+            if not base.get("ext"):
+                yield {"m": "chunksize", "idx": i, "how": "cr"}
             if lines[i][2] != 0:
                 yield {"m": "chunksize", "idx": i, "how": "remove"}
     coded = [c for c in base.get("coding", []) if c != "identity"]
